@@ -9,6 +9,8 @@ import (
 	"sync"
 	"sync/atomic"
 	"time"
+
+	"github.com/enfein/mieru/v3/pkg/stderror"
 )
 
 // PRF byte streams -----------------------------------------------------------
@@ -100,7 +102,11 @@ type RunResult struct {
 // IsTimeout reports whether err is a deadline error (retryable on a net.Conn).
 func IsTimeout(err error) bool {
 	var ne net.Error
-	return errors.As(err, &ne) && ne.Timeout()
+	if errors.As(err, &ne) && ne.Timeout() {
+		return true
+	}
+	// mieru's sessions report an expired deadline as stderror.ErrTimeout
+	return errors.Is(err, stderror.ErrTimeout)
 }
 
 // TransferOpts bound a run.
